@@ -140,6 +140,8 @@ def error_cases(rnd, env, c):
     mk("unsupported AFI", lambda d: (d.__setitem__("nafi", rnd.choice([0, 3, 77, 65535])), d.__setitem__("afi", d["nafi"])), None, {CODES["UNSUPPORTED_AFI"]})
     mk("as many signatures as segments", lambda d: d.__setitem__("counts", [n, n]), None, {CODES["WRONG_SEGMENT_COUNT"]})
     mk("count fields off by two", lambda d: d.__setitem__("counts", [n, (n + 1) % 65536]), None, {CODES["WRONG_SEGMENT_COUNT"]})
+    mk("signature count off by a multiple of 256", lambda d: d.__setitem__("counts", [n, n - 1 + rnd.choice([256, 512, 65280])]), None,
+       {CODES["WRONG_SEGMENT_COUNT"]})
     mk("no secure-path segment", lambda d: (d.__setitem__("secs", []), d.__setitem__("sigs", [])), None, {CODES["INVALID_ARGUMENTS"], CODES["WRONG_SEGMENT_COUNT"]})
     mk("suite + AFI + counts + bad key", lambda d: (d.__setitem__("alg", 3), d.__setitem__("nafi", 5), d.__setitem__("afi", 5), d.__setitem__("counts", [n, n])),
        ("raw", "00" * 121), {CODES["UNSUPPORTED_ALGORITHM_SUITE"], CODES["UNSUPPORTED_AFI"], CODES["WRONG_SEGMENT_COUNT"], CODES["LOAD_PRIV_KEY_ERROR"]})
